@@ -31,7 +31,8 @@ func (c17) Rule() string {
 }
 func (c17) Assumptions() []string {
 	return []string{"oracle by construction (the harness builds the document, so it knows the location); no model involved",
-		"$defs and definitions never share an object; array-form items, dependencies, additionalItems, definitions only under a draft-07 root"}
+		"$defs and definitions never share an object; array-form items, dependencies, additionalItems, definitions only under a draft-07 root",
+		"pinned known finding (not generated): the pointer .../not into the boolean schema false resolves, because false is held as {\"not\": {}} (KF-C17-1); every other route into false is generated and must fail"}
 }
 
 var ptrKeys = []string{"", "/", "~", "~0", "~1", "~01", "%", "%25", " ", "a b", "é", "日本", "0", "01", "-", "#", "?", "\"", "\\", "a/b", "~~", "%2F", "+1", "-0", "a", "b", "k", "a+b", "c++", "+", "a&b", "x=y;z", "$ref", "(", "a,b", "@", "!", "*", "\ufffd", "a\ufffdb", "\U0001F600", "\ufeff", "\u00a0"}
